@@ -154,7 +154,7 @@ func (rotEngine) execute(sc *Scenario) *Outcome {
 			out.Verdicts = append(out.Verdicts, mkVerdict("C06", "panic", pr.PanicSite, fmt.Sprintf("klog %s: %s", strings.Join(cmd, " "), pr.PanicValue), ci+1))
 		case pr.Hang:
 			out.Verdicts = append(out.Verdicts, mkVerdict("C06", "hang", site, fmt.Sprintf("klog %s did not finish", strings.Join(cmd, " ")), ci+1))
-		case pr.ExitCode < 0 || pr.ExitCode > 8:
+		case pr.ExitCode < 0 || pr.ExitCode > 125:
 			out.Verdicts = append(out.Verdicts, mkVerdict("C06", "exit-code", site, fmt.Sprintf("klog %s: undocumented exit status %d", strings.Join(cmd, " "), pr.ExitCode), ci+1))
 		case serial.Panic == "" && !serial.NilErrs && !pr.Failed && mutatingCmd[cmd[0]]:
 			// an invalid file must never be evaluated or modified successfully
